@@ -190,10 +190,19 @@ class ConfigParser(object):
       string_io = io.StringIO(string_or_filelike)
       line_reader = string_io.readline
 
+    pending_lines = collections.deque()
+
     def _text_line_reader():
+      if pending_lines:
+        return pending_lines.popleft()
       line = line_reader()
       if isinstance(line, bytes):
         line = line.decode('utf8')
+      if '\r' in line:
+        # Like Python, read '\r' and '\r\n' as line breaks too (the tokenizer
+        # only knows '\n', which is what text-mode files deliver anyway).
+        pending_lines.extend(io.StringIO(line, newline=None).readlines())
+        line = pending_lines.popleft()
       return line
 
     self._token_generator = tokenize.generate_tokens(_text_line_reader)
